@@ -21,7 +21,7 @@ from plugins import StdFunction, StdVector, StdArray, Sync, Chrono, StringStream
 TU = 'modules/eventx/thread_pool.cpp'
 C = 'tbox::eventx::ThreadPool::'
 P = 'eventx_ThreadPool_'
-R = {P + 'cancel': 'TP_cancel', P + 'popOneTask': 'TP_popOneTask', P + 'threadProc': 'TP_threadProc', P + 'cleanup': 'TP_cleanup', P + 'initialize': 'TP_initialize',
+R = {P + 'execute__tbox_eventx_ThreadPool_NonReturnFuncrr_tbox_eventx_ThreadPool_NonReturnFuncrr_int': 'TP_execute', P + 'cancel': 'TP_cancel', P + 'popOneTask': 'TP_popOneTask', P + 'threadProc': 'TP_threadProc', P + 'cleanup': 'TP_cleanup', P + 'initialize': 'TP_initialize',
      P + 'createWorker': 'TP_createWorker', P + 'shouldThreadExitWaiting': 'TP_shouldExit',
      'event_Loop_runInLoop__Ktbox_event_Loop_Funcr_Kstd_stringr': 'Loop_runInLoop_c', 'event_Loop_runInLoop__tbox_event_Loop_Funcrr_Kstd_stringr': 'Loop_runInLoop_m',
      'cabinet_Token_ctor__Ktbox_cabinet_Tokenr': 'Token_copy'}
@@ -278,6 +278,37 @@ __CPROVER_loop_invariant(__i3 <= __r3->size && __r3 == &thread_vec && thread_vec
 __CPROVER_decreases(__r3->size - __i3)
 ''',
 })
+# ---------------------------------------------------------------- submission
+EXTERN_S = r"""
+void v_q_hook(const void *v, int op) { if (op == 1) { __CPROVER_assert(g_tp->d_->lock.held == 1 && g_cab_allocs == 1, "a queue grows only under the lock, by the token just issued"); g_pushed_to = v; g_pushes++; } }
+Task *v_pool__alloc(struct v_pool *p) __CPROVER_requires(g_tp->d_->lock.held == 1 && g_allocs == 0) __CPROVER_assigns(g_allocs) __CPROVER_ensures(g_allocs == 1 && __CPROVER_return_value == g_item);
+Token v_taskcab__alloc(struct v_taskcab *c, Task *t) __CPROVER_requires(g_tp->d_->lock.held == 1 && t == g_item && g_cab_allocs == 0) __CPROVER_assigns(g_cab_allocs)
+  __CPROVER_ensures(g_cab_allocs == 1 && __CPROVER_return_value.id_ == g_tok.id_ && __CPROVER_return_value.pos_ == g_tok.pos_);
+size_t v_taskcab__size(struct v_taskcab *c) __CPROVER_requires(g_tp->d_->lock.held == 1) __CPROVER_assigns() __CPROVER_ensures(__CPROVER_return_value == g_waiting);
+size_t v_thrcab__size(struct v_thrcab *c) __CPROVER_requires(g_tp->d_->lock.held == 1) __CPROVER_assigns() __CPROVER_ensures(__CPROVER_return_value == g_nthr);
+/* a new worker: only while fewer than the configured maximum are alive, under the lock */
+_Bool TP_createWorker(TP *self) __CPROVER_requires(self == g_tp && self->d_->lock.held == 1 && g_nthr < self->d_->max_thread_num && g_created == 0) __CPROVER_assigns(g_created) __CPROVER_ensures(g_created == 1);
+"""
+SPEC_S = dict(GUARD)
+SPEC_S.update({
+    ('prelude_early',): EARLY + 'void v_q_hook(const void *v, int op);\n#undef V_ABS_HOOK\n#define V_ABS_HOOK(v, op) v_q_hook((const void *)(v), op)\n',
+    ('prelude',): PRELUDE + 'static size_t g_allocs, g_cab_allocs, g_pushes, g_waiting, g_nthr, g_created; static const void *g_pushed_to; static Task *g_item;\n', ('after_protos',): EXTERN_S,
+    ('stub', 'TP_createWorker'): True,
+    ('contract', 'TP_execute'): TP_FRESH + r"""
+__CPROVER_requires(__CPROVER_is_fresh(backend_task, sizeof(*backend_task)) && __CPROVER_is_fresh(main_cb, sizeof(*main_cb)) && __CPROVER_is_fresh(g_item, sizeof(Task)) && g_tok.id_ != 0)
+__CPROVER_requires(self->d_->lock.held == 0 && (self->d_->is_ready == 0 || self->d_->is_ready == 1) && """ + ' && '.join('LV(self->d_, %d).size < V_MAXSZ - 1' % i for i in range(5)) + r""")
+__CPROVER_assigns(g_tp, g_allocs, g_cab_allocs, g_pushes, g_pushed_to, g_created, v_noblock_mutex, __exc, *g_item, *backend_task, *main_cb, v_vec_cabinet_Token_cell, self->d_->lock.held, self->d_->undo_task_peak_num_,
+                  LV(self->d_, 0).size, LV(self->d_, 1).size, LV(self->d_, 2).size, LV(self->d_, 3).size, LV(self->d_, 4).size)
+__CPROVER_ensures(self->d_->lock.held == 0 && __exc == 0)
+__CPROVER_ensures(!T(self->d_->is_ready) ==> (__CPROVER_return_value.id_ == 0 && g_allocs == 0 && g_pushes == 0 && g_created == 0))           /* not initialised: refused with a null token, nothing queued */
+/* one record, one token (returned and stored in the record), queued exactly once - at the level of the clamped priority (0 = highest) */
+__CPROVER_ensures(T(self->d_->is_ready) ==> (g_allocs == 1 && g_cab_allocs == 1 && g_pushes == 1 && g_pushed_to == (const void *)&LV(self->d_, (prio < -2 ? -2 : prio > 2 ? 2 : prio) + 2) &&
+                  __CPROVER_return_value.id_ == g_tok.id_ && __CPROVER_return_value.pos_ == g_tok.pos_ && g_item->token.id_ == g_tok.id_ && g_item->token.pos_ == g_tok.pos_))
+/* a worker is added only when the idle ones cannot cover the waiting tasks, and never beyond the configured maximum (createWorker contract) */
+__CPROVER_ensures(g_created == 1 ==> (g_waiting > __CPROVER_old(self->d_->idle_thread_num) && g_nthr < self->d_->max_thread_num))
+""",
+    ('ghost', 'TP_execute', 'entry'): 'g_tp = self; g_allocs = 0; g_cab_allocs = 0; g_pushes = 0; g_created = 0; v_noblock_mutex = 0; __exc = 0;',
+})
 H = lambda body: '\nvoid H(void)\n{\n' + body + '\n  __CPROVER_assert(0, "VACUITY-CANARY");\n}\n'
 def COMMON(abstract_q, thr_abs=False): return dict(tu=TU, filter='tbox::eventx', more_filters=[(TU, 'cabinet::Token'), (TU, 'tbox::event')], rename=R,
     plugins=[StdFunction(), StdVector(abstract=dict({'struct cabinet_Token': '1'}, **({'struct v_thread *': 'x == g_thr'} if thr_abs else {})) if abstract_q else None), StdArray(), Sync(), Chrono(abstract_time=True), StringStreamSink(), Syscalls(), OpaqueString(),
@@ -296,6 +327,10 @@ UNITS = [
              clause='worker: idle count restored on every path; stop flag examined under the lock after each wake-up; body once, outside the lock, between register/unregister; completion posted after the body'),
       Target('initialize', H('  TP *p; ssize_t a, b; TP_initialize(p, a, b);'), enforce='TP_initialize', replace=['v_thrcab__alloc', 'v_thrcab__update'], timeout=900, defines=['V_THREAD_NEW_OPAQUE'],
              clause='initialize: stop flag cleared under the lock before any worker starts; min workers created'),
+  ], **COMMON(True)),
+  UnitSpec(name='thread_pool_submit', spec=SPEC_S, emit=[C + 'execute'], targets=[
+      Target('execute', H('  TP *p; struct v_function *b, *m; int prio; TP_execute(p, b, m, prio);'), enforce='TP_execute', replace=['v_pool__alloc', 'v_taskcab__alloc', 'v_taskcab__size', 'v_thrcab__size', 'TP_createWorker'], timeout=600,
+             clause='execute: one task record, one token (returned and stored), queued exactly once at the back of the level of the clamped priority, all under the lock; a worker is added only below the maximum; refused when not initialised'),
   ], **COMMON(True)),
   UnitSpec(name='thread_pool_cleanup', spec=SPEC_C, emit=[C + 'cleanup'], targets=[
       Target('cleanup', H('  TP *p; TP_cleanup(p);'), enforce='TP_cleanup', replace=['v_taskcab__free', 'v_pool__free', 'v_thrcab__size', 'v_thrcab__foreach', 'v_thrcab__clear', 'v_thread_join', 'v_delete__v_thread'], timeout=600,
